@@ -84,7 +84,7 @@ func (p c14) real(r *core.Result, c core.Case) {
 		r.Note = err.Error()
 		return
 	}
-	serving := len(rig.LimeGoroutines())
+	serving := rig.StableLimeGoroutineCount()
 
 	type script struct {
 		name  string
